@@ -547,7 +547,7 @@ class MiniEval:
         raise Unsupported('call form')
 
 
-_BUILTIN_TYPES = {'type': type, 'list': list, 'set': set, 'dict': dict, 'tuple': tuple, 'str': str, 'int': int, 'float': float,
+_BUILTIN_TYPES = {'type': type, 'bytearray': bytearray, 'object': object, 'complex': complex, 'range': range, 'list': list, 'set': set, 'dict': dict, 'tuple': tuple, 'str': str, 'int': int, 'float': float,
                   'bool': bool, 'frozenset': frozenset, 'bytes': bytes, 'True': True, 'False': False, 'None': None}
 
 
